@@ -81,6 +81,7 @@ def normsig(path):
 def origin_sig(o, x):
     import hashlib
     if o.startswith("ast:commented/"): return "stmt=commented"
+    if o.startswith("ast:kind-tablecol/"): return "kind-tablecol"      # the table-literal emitter, whatever the column kind
     if o.startswith("ast:"): return o.split("/")[1]
     return o.split(":")[0] + ":" + hashlib.sha1(x.encode("utf8")).hexdigest()[:8]
 
